@@ -207,3 +207,19 @@ register('C12', 'translation_validation',
          "cos exp sigmoid arctan sinh cosh absv tan, cubic/rational terms, algebraic intermediates, edges; abs at "
          "argument 0 excluded; default backend; the auto-07p DFDU/DFDP blocks belong to C18",
          "forward-mode AD of the emitted vector field vs emitted Jacobian, decided by z3 (symx)", "7/C12")
+register('C02', 'translation_validation',
+         "One generated spec is compiled for the NumPy, PyTorch, JAX and Fortran backends; the emitted text of each - "
+         "Python text under the respective library model (incl. the helper defs PyRates prepends: sigmoid, wsum, torch "
+         "interp with its Python branches explored path by path), Fortran 90 text through the f90smt interpreter (1-based "
+         "bounds-checked arrays, integer literal typing, cshift, emitted finterp/fsigmoid helpers translated, not "
+         "modelled) - is proved by z3 equal to the SAME reference semantics per state variable for all states and "
+         "parameters, hence the backends agree. Both vector-field conventions (in-place buffer, returned array), "
+         "vectorize on/off where allowed, one program per registered function, delay ring buffers (NumPy/Torch/Fortran), "
+         "gamma chains, extrinsic inputs through each backend's interp/index code (symbolic samples and symbolic t). "
+         "Returned argument values are compared by name across backends. The backends' own fixed-step kernels are "
+         "decided in C03 (uninterpreted vector field).",
+         "reals for floats: agreement 'to working precision' of the numerical libraries themselves (torch vs numpy exp) and "
+         "float32 effects are not claimed; adaptive integrators outside; the Fortran function is replayed through a "
+         "ctypes stand-in for the missing f2py/meson tool chain (same .f90 compiled with gfortran); GPU/Julia/Matlab "
+         "outside",
+         "SMT translation validation of emitted NumPy/Torch/JAX/Fortran text (symx + f90smt + z3)", "7/C02")
